@@ -27,8 +27,9 @@
       o is ANY outcome the scheduler model allows in the context of the current DB
       ([Sched.allowed]); an error or panic drops the round.
     - EExec: client/nodehost.go HandleMasterRequests on the queue: launch / join / restore start a
-      replica, ADD / DELETE go through the ordered config change (ccok = false: it times out),
-      a completed DELETE and a KILL remove the data on the executing host.
+      replica, ADD / DELETE go through the ordered config change (ccok = false: it times out; when it
+      completes the proposing replica has applied it and knows the new version), a completed DELETE
+      and a KILL remove the data on the executing host.
     - ECrash: the host process dies, data is preserved; ERestart: it comes back, nothing runs until
       Drummer asks for a restore.
     - ELearn: a running replica applies the config change of version v (arbitrary lag); a replica
@@ -122,6 +123,10 @@ Definition cc_ready (ccok : bool) (hosts : gmap N fhost) (reps : gmap (N * N) lr
   (fence : N) : bool :=
   ccok && existsb (is_member M) (running_of reps s) && (fence =? v) && quorum_running hosts s M.
 
+(* the replica that proposed a config change has applied it when the request completes: it knows the new version *)
+Definition learn_local (reps : gmap (N * N) lrep) (s : N) (M : gmap N N) (v : N) : gmap (N * N) lrep :=
+  map_imap (λ k lr, Some (if bool_decide (k.1 = s) && lr_running lr && is_member M k.2 then mkLRep true v else lr)) reps.
+
 Definition start_existing (h : N) (x : xstate) (reps : gmap (N * N) lrep) (s rid : N) (lr : lrep) : xstate :=
   if busy reps s || removed_at (hist_of x.2 s) rid (lr_ver lr) then x
   else (set_reps x.1 h (<[(s, rid) := mkLRep true (lr_ver lr)]> reps), x.2).
@@ -161,7 +166,7 @@ Definition exec_req (h : N) (ccok : bool) (x : xstate) (q : request) : option xs
         Some (match hs with
               | e :: _ =>
                 if cc_ready ccok x.1 reps s e.1 e.2 (q_ccid q) && negb (used_in hs rid)
-                then (x.1, <[s := (e.1 + 1, <[rid := t]> e.2) :: hs]> x.2) else x
+                then (set_reps x.1 h (learn_local reps s e.2 (e.1 + 1)), <[s := (e.1 + 1, <[rid := t]> e.2) :: hs]> x.2) else x
               | [] => x
               end)
       | _, _ => None                                         (* index out of range *)
@@ -172,7 +177,8 @@ Definition exec_req (h : N) (ccok : bool) (x : xstate) (q : request) : option xs
         Some (match hs with
               | e :: _ =>
                 if cc_ready ccok x.1 reps s e.1 e.2 (q_ccid q) && is_member e.2 rid
-                then (set_reps x.1 h (delete (s, rid) reps), <[s := (e.1 + 1, delete rid e.2) :: hs]> x.2) else x
+                then (set_reps x.1 h (delete (s, rid) (learn_local reps s e.2 (e.1 + 1))),
+                      <[s := (e.1 + 1, delete rid e.2) :: hs]> x.2) else x
               | [] => x
               end)
       | [] => None
